@@ -96,7 +96,7 @@ def run_snap(scn):
             o = frac(b["arrival_seconds"])
             x = A * tps
             kk = round(x)
-            tol = F(1, 10 ** 9) / tps * max(1, abs(kk))
+            tol = max(F(1, 10 ** 9), F(abs(kk), 2 ** 44)) / tps
             if near(x, kk):
                 acc = [F(kk, tps)]
                 if x < kk:
@@ -319,14 +319,19 @@ def run_sample(scn):
                 raise Violation("C20.sample.wrong_seed", {"sample": i, "start_seed": start, "expected_seed": start + i,
                                                           "rows_got": got.count("\n"), "rows_want": want.count("\n")})
             texts.append(got)
-        if n >= 2 and all(x.count("\n") > 8 for x in texts):
+        # "different samples are different workloads" presupposes a workload in which the seed decides
+        # something: two classes of probability >= 0.1 and >= 150 pipelines (agreement by chance < 0.82^150 ~ 1e-13)
+        entropy = sum(1 for k in ("interactive_prob", "query_prob", "batch_prob") if params[k] >= 0.1) >= 2
+        npipes = min(len(set(l.split(",")[0] for l in x.splitlines()[1:])) for x in texts) if texts else 0
+        if n >= 2 and entropy and npipes >= 150:
+            out["probes"]["samples_compared"] = 1
             for i in range(n):
                 for j in range(i + 1, n):
                     if texts[i] == texts[j]:
                         raise Violation("C20.sample.identical", {"samples": [i, j]})
         if sorted(c[0] for c in calls) != sorted("w%d.csv" % i for i in range(n)):
             raise Violation("C20.sample.fanout", {"calls": [c[0] for c in calls], "samples": n})
-        out["probes"] = {"samples": n}
+        out["probes"]["samples"] = n
     except Violation as v:
         out["violation"] = v.to_json()
     finally:
@@ -348,6 +353,9 @@ def gen_scn(r, family, tier):
     tps = r.choice([1, 2, 3, 5, 7, 10, 16, 30, 100, 100, 250, 1000, 10 ** 4, 10 ** 5])
     n = r.randint(1, 40)
     t = F(0)
+    if r.random() < 0.35:
+        # far into the run: tick numbers up to ~1e9, where the float product has few fractional bits left
+        t = F(r.choice([10 ** 4, 10 ** 6, 2 ** 24, 5 * 10 ** 7, 10 ** 9]) + r.randint(0, 10 ** 6), tps)
     arrivals = []
     kind = r.choice(["grid", "off", "mixed", "floatgrid"])
     for _ in range(n):
